@@ -229,6 +229,8 @@ def c11_vocab(run):
     rf_vocab.rf121(run)
     rf_vocab.rf176(run)
     rf_vocab.rf191(run)
+    rf_bounds.rf13s(run)   # the binary form is written through the compressor
+    rf_bounds.rf183(run)
     rf_vocab.rf129(run)
 
 
@@ -362,6 +364,7 @@ def c01_rf18(run):
     rf_flow.rf148(run)
     rf_fold.rf149(run)
     rf_flow.rf179(run)
+    rf_flow.rf198(run)
 
 
 def c04_rf18(run):
@@ -422,6 +425,7 @@ def c16_rf16(run):
     rf_proto.rf16f(run)
     rf_proto.rf171(run)
     rf_templates.rf11(run)
+    rf_proto.rf199(run)
     run.min_instances('RF66', 4)
     rf_x86.rf77(run)
     rf_dispatch.rf7g(run)
@@ -446,6 +450,7 @@ def c13_rf16(run):
     rf_proto.rf157(run)
     rf_proto.rf158(run)
     rf_proto.rf168(run)
+    rf_proto.rf196(run)
 
 
 def c14_rf16f(run):
@@ -619,6 +624,7 @@ def c02_rf26(run):
     rf_x86.rf110(run)
     rf_fold.rf141(run)
     rf_fold.rf170(run)
+    rf_flow.rf197(run)
     rf_fold.rf149(run)
 
 
